@@ -369,6 +369,10 @@ package tlog
 //@   uses tlen_pow2
 //@   loop 0:
 //@     invariant h >= 1
+//@     # the tile planned for a tree-hash index is the widest version of that index's tile that the tree has (what a
+//@     # publisher lists), and tileOrder names the slot that holds it
+//@     invariant forall p Tile, j int {tileOrder[p], tiles[j]} :: has(tileOrder, p) && tileOrder[p] == j && 0 <= j && j < len(tiles) ==> tiles[j] == p
+//@     invariant [C10] widest_tile_planned: forall i2 int {stx[i2]} :: 0 <= i2 && i2 <= @idx ==> tiles[stxTileOrder[i2]] == tileParent(tileForIndex_r0(h, stx[i2]), 0, r.tree.N)
 //@     invariant 0 - 1 <= @idx && @idx < len(stx) && len(stxTileOrder) == len(stx) && len(stx) >= 1
 //@     invariant len(tiles) <= @idx + 1 && (@idx >= 0 ==> len(tiles) >= 1)
 //@     invariant forall i2 int :: 0 <= i2 && i2 <= @idx ==> 0 <= stxTileOrder[i2] && stxTileOrder[i2] < len(tiles)
